@@ -72,6 +72,11 @@ func harnessOverlay() (map[string][]byte, []string, error) {
 		if _, ok := ov[sup]; !ok {
 			pkgName := packageClause(b)
 			ov[sup] = []byte(strings.Replace(string(support), "package PKG", "package "+pkgName, 1))
+			if dir == "decoder" {
+				if sp, err := os.ReadFile(filepath.Join(harnessDir, "support_parse.go.tmpl")); err == nil {
+					ov[filepath.Join(repoDir, dir, "zz_verif_support_parse.go")] = []byte(strings.Replace(string(sp), "package PKG", "package "+pkgName, 1))
+				}
+			}
 		}
 		return nil
 	})
@@ -131,7 +136,8 @@ func loadWorld(extraOverlay map[string][]byte) (*world, error) {
 	w.loadSecs = time.Since(t0).Seconds()
 	w.intrinsicNames = map[string]bool{}
 	if sup, err := os.ReadFile(filepath.Join(harnessDir, "support.go.tmpl")); err == nil {
-		for _, m := range regexp.MustCompile(`(?m)^func (verif\w+)\(`).FindAllStringSubmatch(string(sup), -1) {
+		sp, _ := os.ReadFile(filepath.Join(harnessDir, "support_parse.go.tmpl"))
+		for _, m := range regexp.MustCompile(`(?m)^func (verif\w+)\(`).FindAllStringSubmatch(string(sup)+"\n"+string(sp), -1) {
 			w.intrinsicNames[m[1]] = true
 		}
 	}
